@@ -32,6 +32,8 @@ structure TrAlt where
   mode : Nat := 0
   /-- client_port present -/
   ports : Bool := true
+  /-- which client port pair (an abstract identifier; only equality matters) -/
+  port : Nat := 0
   /-- 0 = no interleaved ids, 1 = (ilA, ilA+1), 2 = (ilA, ilA+2) -/
   il : Nat := 0
   ilA : Nat := 0
@@ -82,6 +84,9 @@ structure Request where
   /-- what the application handler answers if it is called -/
   hStatus : Nat := 200
   hErr : Bool := false
+  /-- filled in by the connection level (`portBusy`): the chosen UDP client port is already used by
+  another reader of the stream coming from the same address (`ServerStream.readerAdd`) -/
+  portBusy : Bool := false
   deriving Repr, Inhabited
 
 /-- The `error` a request ends with: none, `switchReadFuncError{tcp}`, or a real error. -/
@@ -111,6 +116,8 @@ structure Session where
   medias : List Nat := []
   /-- `tcpChannel` of each setupped media -/
   chans : List Nat := []
+  /-- `udpRTPReadPort` of each setupped media (UDP only) -/
+  udpPorts : List Nat := []
   path : Nat := 0
   nAnn : Nat := 0
   tcpConn : Option Nat := none
@@ -219,11 +226,13 @@ def setupMedia (cfg : Config) (ss : Session) (r : Request) (t : TrAlt) : Session
   | some i =>
     if !mediaFound cfg ss r i then bad ss
     else if ss.medias.contains i then bad ss
+    else if ss.state == .initial && t.proto == .udp && r.portBusy then bad ss   -- ErrServerUDPPortsAlreadyInUse
     else
       ({ ss with
           transport := some t.proto
           medias := ss.medias ++ [i]
           chans := ss.chans ++ [tcpChan ss t]
+          udpPorts := if t.proto == .udp then ss.udpPorts ++ [t.port] else ss.udpPorts
           state := if ss.state == .initial then .prePlay else ss.state
           path := if ss.state == .initial then r.path else ss.path },
        -- the handler's error survives only in `prePlay`: in the other two states the variable
@@ -369,14 +378,31 @@ def closeConn (srv : Server) (c : Nat) : Server :=
         let srv2 := putSession srv1 ss'
         if endsWhenUnused ss' then endSession srv2 sid else srv2
 
+/-- `ServerStream.readerAdd` (first SETUP of a reader, UDP): is the client's RTP port already used
+by another reader of the stream that comes from the same address? -/
+def portBusy (cfg : Config) (srv : Server) (ss : Session) (r : Request) : Bool :=
+  match r.trs with
+  | none => false
+  | some ts =>
+    match pickTransport cfg ts with
+    | none => false
+    | some t =>
+      t.proto == .udp && srv.sessions.any fun s =>
+        s.id != ss.id && (s.state == .prePlay || s.state == .play) && s.transport == some .udp &&
+          s.authorIp == ss.authorIp && s.udpPorts.contains t.port
+
 def errResp (status : Nat) : Resp := { status := status, err := .fail }
 
-/-- the part of `handleRequestInSession` after the session was determined -/
-def runInSession (cfg : Config) (srv : Server) (c : Nat) (ss : Session) (r : Request) : Server × Resp :=
+def runInSessionWith (cfg : Config) (srv : Server) (c : Nat) (ss : Session) (r : Request) : Server × Resp :=
   let o := sessHandle cfg ss c r
   let srv1 := putSession srv o.ss
   if o.ended then (endSession (setConnSess srv1 c none) ss.id, o.res)
   else (setConnSess srv1 c (some ss.id), o.res)
+
+/-- the part of `handleRequestInSession` after the session was determined; what the session needs
+to know about the other sessions (`portBusy`) is handed to it with the request -/
+def runInSession (cfg : Config) (srv : Server) (c : Nat) (ss : Session) (r : Request) : Server × Resp :=
+  runInSessionWith cfg srv c ss { r with portBusy := portBusy cfg srv ss r }
 
 def lookupSid (srv : Server) : SidRef → Option Session
   | .id n => findSession srv n
